@@ -30,6 +30,7 @@ type IResult struct {
 	Fails      []IFail
 	NFails     int64
 	Samples    []string
+	States     int64 // optional: distinct states of an embedded closure search
 }
 
 type iJob struct {
@@ -59,6 +60,14 @@ func RunFamilies(c *Ctx, fams []*IFamily, rep *Report) {
 		rep.Coverage = map[string]any{}
 	}
 	var total, nontriv int64
+	cov := rep.Coverage
+	addI := func(k string, v int64) {
+		if x, ok := cov[k].(int64); ok {
+			cov[k] = x + v
+		} else {
+			cov[k] = v
+		}
+	}
 	perFam := map[string]any{}
 	var samples []any
 	var rules []string
@@ -87,6 +96,7 @@ func RunFamilies(c *Ctx, fams []*IFamily, rep *Report) {
 			fr.Evals += r.Evals
 			fr.Nontrivial += r.Nontrivial
 			fr.NFails += r.NFails
+			fr.States += r.States
 			fr.Fails = append(fr.Fails, r.Fails...)
 			if len(fr.Samples) < 4 {
 				fr.Samples = append(fr.Samples, r.Samples...)
@@ -105,21 +115,14 @@ func RunFamilies(c *Ctx, fams []*IFamily, rep *Report) {
 			rep.Add(f.Name+": "+fl.Key, fl.Msg, map[string]any{"family": f.Name, "input": fl.Input})
 		}
 		total += fr.Evals
+		addI("closure_states", fr.States)
 		nontriv += fr.Nontrivial
-		perFam[f.Name] = map[string]any{"evaluations": fr.Evals, "distinct_nontrivial": fr.Nontrivial, "failing_evaluations": fr.NFails, "chunks": f.Chunks, "rule": f.Rule}
+		perFam[f.Name] = map[string]any{"evaluations": fr.Evals, "distinct_nontrivial": fr.Nontrivial, "failing_evaluations": fr.NFails, "chunks": f.Chunks, "rule": f.Rule, "states": fr.States}
 		rules = append(rules, f.Name+": "+f.Rule)
 		for _, s := range fr.Samples {
 			if len(samples) < 16 {
 				samples = append(samples, map[string]any{"family": f.Name, "case": s})
 			}
-		}
-	}
-	cov := rep.Coverage
-	addI := func(k string, v int64) {
-		if x, ok := cov[k].(int64); ok {
-			cov[k] = x + v
-		} else {
-			cov[k] = v
 		}
 	}
 	addI("evaluations", total)
